@@ -209,10 +209,37 @@ class C03(TreeSpec):
 def _c03_engine_twin(self, bt, plan):
     import numpy as np
 
-    a, ea = drive_engine.run_light(bt, plan, seed=plan["seed"])
-    p2 = dict(plan, cfg=dict(plan["cfg"], capital=plan["engine_scale_twin"]))
-    b, eb = drive_engine.run_light(bt, p2, seed=plan["seed"])
+    # an allocation within float noise of minus the holding's value sits on the close-out shortcut's exact-equality threshold
+    # (a target weight of 0 vs 1e-14 of residue): which side it falls on is rounding noise, and the two sides differ by the fee
+    # funding - the same threshold band as in the tree-driver twins
+    from . import taps as _taps
+
+    _taps.install(bt)  # (before the class attribute is captured: the taps wrap it once per process)
+    SB = bt.core.SecurityBase
+    cur_alloc = SB.allocate
+    near = [0]
+
+    def watch(self, amount, update=True):
+        try:
+            v = self._position * self._price * self.multiplier
+            d = abs(amount + v)
+            if v == v and amount == amount and abs(v) > 0 and 0 < d < 1e-9 * (abs(amount) + abs(v)):
+                near[0] += 1
+        except Exception:  # noqa
+            pass
+        return cur_alloc(self, amount, update)
+
+    SB.allocate = watch
+    try:
+        a, ea = drive_engine.run_light(bt, plan, seed=plan["seed"])
+        p2 = dict(plan, cfg=dict(plan["cfg"], capital=plan["engine_scale_twin"]))
+        b, eb = drive_engine.run_light(bt, p2, seed=plan["seed"])
+    finally:
+        SB.allocate = cur_alloc
     res = dict(viol=[], fired={"capital_scale_twin_engine": 1}, nontrivial=False, info={}, dates=len(plan["feed"]["dates"]) * 2, steps=2)
+    if near[0]:
+        res["info"]["inconclusive_twin_near_close_out_threshold"] = 1
+        return res
     if ea is not None or eb is not None or a.root is None or b.root is None:
         res["info"]["inconclusive_twin_stopped"] = 1
         return res
